@@ -1,5 +1,5 @@
-(* C13 - the P_cif wrapper: positive theorem for scalar-valued items and a symbolic-operation reader that
-   rejects with ValueError/IndexError; refutations for the two witness classes that are recorded as findings. *)
+(* C13 - the P_cif wrapper: positive theorem for scalar-valued items; refutation for the witness class that is
+   recorded as a finding (an item that is a list where one value is expected). *)
 From Coq Require Import List Bool Arith ZArith Lia.
 From DS Require Import Base.C13_Exn Gen.C13_ExcSpec Model.C13_Common Model.C13_Cif Proofs.C13_ExnLemmas.
 From Coq Require Import Ascii String.
@@ -56,8 +56,9 @@ Section CIF_proofs.
     apply within_bind; [apply block_within | intros r _]. destruct r; [exact I | apply IH].
   Qed.
 
-  (* partial: the hypotheses exclude (1) items that are lists where a single value is expected (leading_float and
-     the site readers then raise AttributeError/TypeError) and (2) the eval inside getSymOp (NameError, SyntaxError, ...) *)
+  (* partial: the hypotheses exclude items that are lists where a single value is expected (leading_float and the
+     site readers then raise AttributeError/TypeError).  getSymOp is a plain parser since the D1 repair: it raises
+     ValueError (bad term, zero denominator) or IndexError (fewer than three components), both within symops_kinds *)
   Theorem only_documented_cif_partial : forall text,
     documented (parse_cif V CF B read_cif blocks has_sites has_cell cell_item leading_float lattice_of
                           atom_sites aniso_sites symops text).
@@ -71,7 +72,7 @@ Section CIF_proofs.
   Qed.
 End CIF_proofs.
 
-(* the two witness classes, as oracle behaviours under which the wrapper lets a foreign kind through *)
+(* the witness class, as an oracle behaviour under which the wrapper lets a foreign kind through *)
 Definition cif_with (lf : string -> res unit) (sy : unit -> res unit) : res bool :=
   parse_cif unit unit unit (fun _ => Ok tt) (fun _ => [tt]) (fun _ => true) (fun _ => true)
             (fun _ _ => Ok EmptyString) lf (fun _ => Ok tt) (fun _ => Ok tt) (fun _ => Ok tt) sy EmptyString.
@@ -80,11 +81,6 @@ Lemma cif_nonscalar_item_refuted :
   exists lf, (forall s, within [ValueError; AttributeError] (lf s)) /\
              cif_with lf (fun _ => Ok tt) = Raise AttributeError.
 Proof. exists (fun _ => Raise AttributeError). split; [intros; simpl; tauto | vm_compute; reflexivity]. Qed.
-
-Lemma cif_symop_eval_refuted :
-  exists sy, (forall b, within [KeyError; ValueError; IndexError; FormatError; NameError; SyntaxError; TypeError] (sy b)) /\
-             cif_with (fun _ => Ok tt) sy = Raise NameError.
-Proof. exists (fun _ => Raise NameError). split; [intros; simpl; tauto | vm_compute; reflexivity]. Qed.
 
 (* the hypotheses of the positive theorem are satisfiable: a well-behaved instance parses *)
 Example cif_instance_ok : cif_with (fun _ => Ok tt) (fun _ => Ok tt) = Ok true.
